@@ -298,60 +298,16 @@ theorem altTags_print {α} {T : List (Str × α)} {pr : α → Str} (hT : ∀ e 
   simp only at this
   rw [e, this]
 
-/-! ### `?n` -/
-
-theorem overflow_suffix {a s : Str} (h : Huginn.KF.C06.unknownKindOverflowB (a ++ s) = false) :
-    Huginn.KF.C06.unknownKindOverflowB s = false := by
-  induction a with
-  | nil => simpa using h
-  | cons c a ih =>
-    simp only [List.cons_append, Huginn.KF.C06.unknownKindOverflowB, Bool.or_eq_false_iff] at h
-    exact ih h.2
-
-theorem unknown_fits {L a d r : Str} (hL : L = a ++ ('?' :: (d ++ r)))
-    (hk : ¬ Huginn.KF.C06.unknownKindOverflow L) (hne : d ≠ []) (hd : ∀ c ∈ d, c.isDigit = true)
-    (hr : NoDigit r) : decVal d ≤ 255 := by
-  have h1 : Huginn.KF.C06.unknownKindOverflowB L = false := by
-    simpa [Huginn.KF.C06.unknownKindOverflow] using hk
-  rw [hL] at h1
-  have h2 := overflow_suffix h1
-  simp only [Huginn.KF.C06.unknownKindOverflowB, Bool.or_eq_false_iff, takeWhile_digits_append hd hr] at h2
-  have h3 := h2.1
-  simp only [beq_self_eq_true, Bool.true_and, Bool.and_eq_false_iff, Bool.not_eq_false',
-    List.isEmpty_iff, decide_eq_false_iff_not, Nat.not_lt] at h3
-  rcases h3 with h3 | h3
-  · exact absurd h3 hne
-  · exact h3
-
 theorem parseOpt_canon {L a s r : Str} {o : TcpOption} (hL : L = a ++ s) (hc : CanonNums L)
-    (hk : ¬ Huginn.KF.C06.unknownKindOverflow L) (h : parseOpt s = some (o, r)) : s = printOpt o ++ r := by
+    (h : parseOpt s = some (o, r)) : s = printOpt o ++ r := by
   obtain ⟨p, hp, hps⟩ := alt_inv h
   simp only [List.mem_cons, List.mem_nil_iff, or_false] at hp
   rcases hp with rfl | rfl | rfl
   · obtain ⟨v, rfl, e⟩ := prefixNum_canon (c := '+') rfl (by decide) hL hc hps
     rw [e]; rfl
   · exact altTags_print plainOptTable_consistent hps
-  · unfold optUnknown at hps
-    cases h1 : tag ['?'] s with
-    | none => simp [h1] at hps
-    | some y =>
-      obtain ⟨u, r1⟩ := y
-      simp only [h1] at hps
-      cases h2 : digit1 r1 with
-      | none => simp [h2] at hps
-      | some z =>
-        obtain ⟨d, r2⟩ := z
-        simp [h2] at hps
-        obtain ⟨rfl, rfl⟩ := hps
-        have e1 := tag_inv h1
-        obtain ⟨e2, hne, hd, hr⟩ := digit1_inv h2
-        have hL1 : L = a ++ ('?' :: (d ++ r2)) := by rw [hL, e1, e2]; simp
-        have hfit := unknown_fits hL1 hk hne hd hr
-        have hL2 : L = (a ++ ['?']) ++ (d ++ r2) := by rw [hL1]; simp
-        have hcan := run_canon hL2 (EndND.snoc a (by decide)) hc hne hd hr
-        have : parseMax u8Max d = some (decVal d) := by simp [parseMax, u8Max, hfit]
-        rw [e1, e2, this]
-        simp [printOpt, hcan]
+  · obtain ⟨v, rfl, e⟩ := prefixNum_canon (c := '?') rfl (by decide) hL hc hps
+    rw [e]; rfl
 
 /-! ### lists in context -/
 
@@ -424,10 +380,9 @@ theorem sepList0_canon {α} {p : Parser α} {pr : α → Str} {L : Str}
 /-! ### the whole signature -/
 
 /-- **parse → print for TCP signatures**: if the parser reads the whole line `l` as `sg` and `l` is
-canonical (numerals without leading zeros, no `?n` beyond 255), then printing `sg` gives back `l`. -/
-theorem parseTcpSig_canon {l : Str} {sg : TcpSig} (h : parseTcpSigFull l = some sg) (hcan : CanonTcp l) :
+canonical (numerals without leading zeros), then printing `sg` gives back `l`. -/
+theorem parseTcpSig_canon {l : Str} {sg : TcpSig} (h : parseTcpSigFull l = some sg) (hc : CanonTcp l) :
     printTcpSig sg = l := by
-  obtain ⟨hc, hk⟩ := hcan
   unfold parseTcpSigFull full at h
   cases hp : parseTcpSig l with
   | none => simp [hp] at h
@@ -468,7 +423,7 @@ theorem parseTcpSig_canon {l : Str} {sg : TcpSig} (h : parseTcpSigFull l = some 
           printOptNat mss ++ ':' :: printWSize ws ++ ',' :: printOptNat sc ++ [':']) ++ s12 := by
         rw [L11, e11, e12]; simp
       have e13 := sepList0_canon (pr := printOpt)
-        (fun a s x r hL _ hp => parseOpt_canon hL hc hk hp) L13 (EndND.snoc _ (by decide)) h13
+        (fun a s x r hL _ hp => parseOpt_canon hL hc hp) L13 (EndND.snoc _ (by decide)) h13
       have e14 := tag_inv h14
       have L15 : l = (printIpVersion ver ++ ':' :: printTtl ttl ++ ':' :: natDigits olen ++ ':' ::
           printOptNat mss ++ ':' :: printWSize ws ++ ',' :: printOptNat sc ++ ':' ::
@@ -533,20 +488,64 @@ theorem canonNumsB_sound {l : Str} (h : canonNumsB false l = true) : CanonNums l
   | some c => exact ha c hg
 
 /-- decidable sufficient condition for `CanonTcp` -/
-theorem canonTcp_of_check {l : Str}
-    (h : (canonNumsB false l && !Huginn.KF.C06.unknownKindOverflowB l) = true) : CanonTcp l := by
-  simp only [Bool.and_eq_true, Bool.not_eq_true'] at h
-  exact ⟨canonNumsB_sound h.1, by simp [Huginn.KF.C06.unknownKindOverflow, h.2]⟩
+theorem canonTcp_of_check {l : Str} (h : canonNumsB false l = true) : CanonTcp l := canonNumsB_sound h
 
 /-! ### HTTP with the name filter -/
 
-/-- the `habsent` segment of the line contains no nameless header (or is empty) -/
-def HabsentCanon (l : Str) : Prop :=
-  ∀ raw r, parseHttpSigRawL l = some (raw, r) →
-    (∀ h ∈ raw.habsent, h.name ≠ []) ∨ raw.habsent = [⟨false, [], none⟩]
+theorem read_names {xs : List HeaderL} {ts : List Str}
+    (h : Read (fun x t => t = printHeaderL x ∧ x.name ≠ []) xs ts) : ∀ x ∈ xs, x.name ≠ [] := by
+  induction h with
+  | nil => intro _ h; cases h
+  | cons hx _ ih =>
+    intro y hy
+    rcases List.mem_cons.mp hy with rfl | hy
+    · exact hx.2
+    · exact ih y hy
 
-theorem parseHttpSig_canon {l : Str} {s : HttpSigL} (h : parseHttpSigFullL l = some s) (hc : HabsentCanon l) :
-    printHttpSigL s = l := by
+theorem parseHeaderL_name {s r : Str} {h : HeaderL} (hp : parseHeaderL s = some (h, r)) : h.name ≠ [] := by
+  unfold parseHeaderL at hp
+  cases h1 : opt (tag ['?']) s with
+  | none => simp [h1] at hp
+  | some x =>
+    obtain ⟨o, s1⟩ := x
+    simp only [h1] at hp
+    cases h2 : many1 isNameChar s1 with
+    | none => simp [h2] at hp
+    | some y =>
+      obtain ⟨name, s2⟩ := y
+      simp only [h2] at hp
+      cases h3 : opt bracketValue s2 with
+      | none => simp [h3] at hp
+      | some z =>
+        obtain ⟨v, s3⟩ := z
+        simp [h3] at hp
+        obtain ⟨rfl, rfl⟩ := hp
+        exact (many1_inv h2).2.1
+
+/-- the name filter on `habsent` never removes anything: a parsed header has a name -/
+theorem filterHabsent_id {l r : Str} {raw : HttpSigL} (h : parseHttpSigRawL l = some (raw, r)) :
+    filterHabsent raw = raw := by
+  simp only [parseHttpSigRawL, Option.bind_eq_bind, Option.bind_eq_some_iff, Option.pure_def,
+    Option.some.injEq, Prod.mk.injEq, Prod.exists] at h
+  obtain ⟨ver, s1, h1, u1, s2, h2, ho, s3, h3, u2, s4, h4, ha, s5, h5, u3, s6, h6, sw, s7, h7, rfl, rfl⟩ := h
+  have hn : ∀ x ∈ ha.getD [], x.name ≠ [] := by
+    rcases opt_inv h5 with ⟨xs, rfl, hs⟩ | ⟨rfl, _⟩
+    · obtain ⟨ts, hr, _⟩ := sepList0_inv (R := fun x t => t = printHeaderL x ∧ x.name ≠ [])
+        (fun s x r hp => ⟨printHeaderL x, parseHeaderL_inv hp, rfl, parseHeaderL_name hp⟩) hs
+      simpa using read_names hr
+    · intro x hx; cases hx
+  unfold filterHabsent
+  have : (ha.getD []).filter (fun h => !h.name.isEmpty) = ha.getD [] := by
+    rw [List.filter_eq_self]
+    intro h hh
+    have := hn h hh
+    cases hn' : h.name with
+    | nil => exact absurd hn' this
+    | cons c n => simp
+  simp only [this]
+
+/-- **parse → print for HTTP signatures**, for every accepted text -/
+theorem parseHttpSig_inv {l : Str} {s : HttpSigL} (h : parseHttpSigFullL l = some s) : printHttpSigL s = l := by
   unfold parseHttpSigFullL full parseHttpSigL at h
   cases hp : parseHttpSigRawL l with
   | none => simp [hp] at h
@@ -555,19 +554,6 @@ theorem parseHttpSig_canon {l : Str} {s : HttpSigL} (h : parseHttpSigFullL l = s
     obtain ⟨rfl, hraw⟩ := parseHttpSigRawL_inv hp
     simp [hp] at h
     subst h
-    rw [← hraw]
-    rcases hc raw [] hp with hne | he
-    · have : filterHabsent raw = raw := by
-        unfold filterHabsent
-        have : raw.habsent.filter (fun h => !h.name.isEmpty) = raw.habsent := by
-          rw [List.filter_eq_self]
-          intro h hh
-          have := hne h hh
-          cases hn : h.name with
-          | nil => exact absurd hn this
-          | cons c n => simp
-        rw [this]
-      rw [this]
-    · simp [filterHabsent, printHttpSigL, he, joinComma, printHeaderL]
+    rw [filterHabsent_id hp, hraw]
 
 end Huginn.SigText
